@@ -27,7 +27,7 @@ ASSUMPTIONS = [
     "stack depth 'does not grow': depth at 8n queries <= depth at n queries + 8 frames, and <= 150 frames absolute "
     "(dyadic mode recursion is bounded by log2(span/tol), not by the number of queries)",
 ]
-REQUIRED_COUNTERS = ["queries", "sweep_cases", "subtol_queries", "sliver_queries", "sdeint_default_bm_runs",
+REQUIRED_COUNTERS = ["queries", "sweep_cases", "subtol_queries", "same_gridpoint_queries", "sliver_queries", "sdeint_default_bm_runs",
                      "cache0_queries", "depth_pairs", "evictions", "refinements"]
 OP_BUDGET = 3_000_000
 CASE_TIMEOUT = 1500
@@ -55,6 +55,14 @@ def cases(tier, seed):
     add("sweep_right_hint_cache0", kind="sweep", n=N // 8, cache=0, dthint="right", levy="none", cost=25)
     add("sweep_big_hint", kind="sweep", n=3000, cache=45, dthint="big", levy="none", cost=20)
     add("sweep_small_hint", kind="sweep", n=2000, cache=45, dthint="small", levy="none", cost=15)
+    # dt hint 100x / 1000x coarser than the real step: the tree below each hinted piece is a chain thousands deep,
+    # and the backward sweep walks it with a cold cache
+    add("sweep_huge_hint", kind="sweep", n=6000, cache=45, dthint="huge", levy="none", depth_pair=True, cost=25)
+    add("sweep_huge_hint_srk", kind="sweep", n=3000, cache=5, dthint="huge", levy="space-time", cost=25)
+    add("sweep_enormous_hint_cacheNone", kind="sweep", n=5000, cache=None, dthint="enormous", levy="none", cost=20)
+    # no hint, step size collapsing mid-history (coarse warm-up, then 100x finer steps), forward then backward
+    add("sweep_step_collapse", kind="collapse", n=5000, cache=45, levy="none", depth_pair=True, cost=25)
+    add("sweep_step_collapse_cache2", kind="collapse", n=1500, cache=2, levy="space-time", cost=25)
     add("sweep_cache0_nohint", kind="sweep", n=700, cache=0, dthint="none", levy="none", depth_pair=True, cost=25)
     add("sweep_cache1_nohint", kind="sweep", n=700, cache=1, dthint="none", levy="space-time", depth_pair=True,
         cost=25)
@@ -74,7 +82,7 @@ def cases(tier, seed):
     # 3. sub-tolerance queries
     i = 0
     for halfway in (True, False):
-        for tol in (1e-2, 1e-3, 1e-6):
+        for tol in (1e-2, 1e-3, 1e-6, 5e-4, 2.5e-3, 3e-6):
             for where in ("start", "middle", "end", "boundary"):
                 add(f"subtol{i}", kind="subtol", halfway=halfway, tol=tol, where=where, cost=1)
                 i += 1
@@ -90,8 +98,9 @@ def cases(tier, seed):
     add("sdeint_default_srk", kind="sdeint_long", method="srk", n=N // 6, cost=30)
     add("sdeint_default_midpoint", kind="sdeint_long", method="midpoint", n=N // 2, cost=30)
     add("sdeint_default_adaptive", kind="sdeint_adaptive", cost=10)
-    for j, dt in enumerate([0.1, 0.01, 0.25, 0.003]):
-        add(f"sdeint_tree{j}", kind="sdeint_tree", dt=dt, cost=5)
+    for j, (dt, tol) in enumerate([(0.1, 1e-6), (0.01, 1e-6), (0.25, 1e-6), (0.003, 1e-6), (6e-4, 5e-4), (0.01, 2.5e-3),
+                                   (0.0007, 1e-3)]):
+        add(f"sdeint_tree{j}", kind="sdeint_tree", dt=dt, tol=tol, cost=5)
     add("sdeint_adjoint_default", kind="sdeint_adjoint_long", n=3000, cost=30)
     # 6. random configurations x random histories incl. off-grid and sub-tolerance queries
     nr = 200 if q else 3000
@@ -168,7 +177,8 @@ def _mk(case, n, t0=None):
     span = case.get("span", 1.0)
     step = span / n
     dth = case.get("dthint")
-    dt = {None: None, "none": None, "right": step, "big": min(10 * step, span), "small": step / 10}[dth]
+    dt = {None: None, "none": None, "right": step, "big": min(10 * step, span), "small": step / 10,
+          "huge": min(100 * step, span), "enormous": min(1000 * step, span)}[dth]
     shape = tuple(case.get("shape", [2]))
     kw = dict(t0=t0, t1=t0 + span, size=shape, entropy=1234 + n, cache_size=case.get("cache", 45),
               levy_area_approximation=case.get("levy", "none"), tol=case.get("tol", 0.0),
@@ -190,7 +200,7 @@ def run_case(case):
         return dp.max_depth
 
     with armed.tp.installed():
-        if kind in ("sweep", "sweep_path", "sweep_tree", "adaptive_sweep"):
+        if kind in ("sweep", "sweep_path", "sweep_tree", "adaptive_sweep", "collapse"):
             n = case["n"]
             flags = bmgen.flags_for({"levy": case.get("levy", "none")})
 
@@ -209,6 +219,11 @@ def run_case(case):
                         pts = sorted({round(t0 + span * i / nn, nd) for i in range(nn + 1)})
                     else:
                         pts = [t0 + span * i / nn for i in range(nn)] + [t0 + span]
+                    if kind == "collapse":
+                        # 120 coarse steps over the first 60% (so the inferred tree is coarse), then nn fine ones
+                        c = [t0 + 0.6 * span * i / 120 for i in range(121)]
+                        f = [c[-1] + 0.4 * span * i / nn for i in range(1, nn)] + [t0 + span]
+                        pts = c + f
                     if kind == "adaptive_sweep":
                         rng = random.Random(nn)
                         t, h = t0, span / nn
@@ -295,6 +310,16 @@ def run_case(case):
                         cnt["subtol_queries"] = cnt.get("subtol_queries", 0) + 1
                         if not (torch.isfinite(W).all() and torch.isfinite(U).all()):
                             viol.append({"mechanism": "non_finite_value:subtol", "detail": f"({a},{b})"})
+                # queries LONGER than tol whose end points still round to the same grid point (the grid is
+                # 10**-ndigits, coarser than tol when tol is not a power of ten)
+                grid = 10.0 ** -bmgen.ndigits(tol)
+                for g in (0.3, 0.5, 0.7 + grid):
+                    g = round(g, bmgen.ndigits(tol))
+                    for frac in (0.4, 0.3, 0.1):
+                        a, b = g - frac * grid, g + frac * grid
+                        W, U = armed.call(bm, a, b, return_U=True)
+                        cnt["subtol_queries"] = cnt.get("subtol_queries", 0) + 1
+                        cnt["same_gridpoint_queries"] = cnt.get("same_gridpoint_queries", 0) + 1
                 # and a run of consecutive sub-tolerance steps, as an adaptive solver at dt_min would make
                 t = 0.3
                 for _ in range(40):
@@ -342,7 +367,7 @@ def run_case(case):
             sde = zoo.NeuralSDE(2, 2, "diagonal", "ito", seed=6, gscale=0.3)
 
             def wl():
-                bm = torchsde.BrownianTree(t0=0.0, w0=torch.zeros(2, 2), t1=1.0, entropy=3)
+                bm = torchsde.BrownianTree(t0=0.0, w0=torch.zeros(2, 2), t1=1.0, entropy=3, tol=case.get("tol", 1e-6))
                 ys = armed.call(torchsde.sdeint, sde, torch.zeros(2, 2), [0.0, 1.0], bm=bm, dt=case["dt"],
                                 method="euler")
                 assert torch.isfinite(ys).all()
